@@ -4,6 +4,7 @@
 -/
 import AnnVerif.Gen.Facts
 import AnnVerif.Model.Transport
+import AnnVerif.Model.Admission
 set_option linter.unusedSimpArgs false
 namespace AnnVerif.Ties
 open AnnVerif
@@ -63,5 +64,21 @@ theorem chunks_is_write (fuel : Nat) (d : Bytes) (hd : d ≠ []) :
     have e1 : d.take 1024 = d := List.take_of_length_le (by omega)
     have e2 : d.drop 1024 = [] := List.drop_of_length_le (by omega)
     simp [hne, h', e1, e2]
+
+end AnnVerif.Ties
+
+namespace AnnVerif.Ties
+open AnnVerif
+
+/-- the exemption of `authByCA` (a current validator, unless configuration asks every node for a
+    certificate) is the first disjunct of the admission model's `caAccepts` -/
+theorem admit_exempt_is_model (n : Admission.Node) (p : Admission.Peer) :
+    Gen.e_admit_exempt n.nonValidatorNodeAuth (n.validatorsNow.any (·.key == p.announced)) = true →
+      Admission.caAccepts {} n p = true := by
+  intro h
+  unfold Gen.e_admit_exempt at h
+  unfold Admission.caAccepts
+  simp only [Bool.and_eq_true, Bool.not_eq_true'] at h
+  simp [h.1, h.2]
 
 end AnnVerif.Ties
